@@ -311,11 +311,21 @@ def load_known():
 
 
 def known_keys(prop):
-    """Keys of *open* findings for a property (fixed entries suppress
-    nothing)."""
+    """Open findings of a property: list of (key, compiled pattern, what).
+    An entry identifies the failing call site / input class either by an
+    exact `key` or by a `key_regex` (full match).  Fixed entries suppress
+    nothing."""
+    import re as _re
     kf = load_known()
-    return {e['key']: e['what'] for e in kf.get('findings', [])
-            if e['property'] == prop}
+    out = []
+    for e in kf.get('findings', []):
+        if e['property'] != prop:
+            continue
+        if 'key_regex' in e:
+            out.append((e['key_regex'], _re.compile(e['key_regex']), e['what']))
+        else:
+            out.append((e['key'], _re.compile(_re.escape(e['key'])), e['what']))
+    return out
 
 
 def write_replay(prop, payload):
@@ -337,19 +347,22 @@ class Verdict:
         self.known = known_keys(prop)
         self.violations = []     # (key, payload)
         self.known_hits = {}     # key -> count
+        self.known_what = {}
 
     def reject(self, key, payload):
         """An observation the specification rejects; `key` identifies the
         specific input / call site / history."""
-        if key in self.known:
-            self.known_hits[key] = self.known_hits.get(key, 0) + 1
-        else:
-            self.violations.append((key, payload))
+        for name, pat, what in self.known:
+            if pat.fullmatch(key):
+                self.known_hits[name] = self.known_hits.get(name, 0) + 1
+                self.known_what[name] = what
+                return
+        self.violations.append((key, payload))
 
     def finish(self):
         for key, cnt in sorted(self.known_hits.items()):
             print(f'KNOWN-FINDING: property={self.prop} {key} '
-                  f'({cnt} rejected observations): {self.known[key]}')
+                  f'({cnt} rejected observations): {self.known_what[key]}')
         seen = set()
         for key, payload in self.violations:
             if key in seen:
